@@ -12,7 +12,10 @@ Monitors (all at the public API of the real classes):
     no cuqi import), pairwise agreement, wrapping (type, geometry, is_par, size);
   * gradient() on 4 direction x 4 linearisation-point representations: value vs J^T d with J (a) analytic from the
     reference, (b) central differences of the *real* forward in parameter space; wrapping; refusal table;
-  * model(distribution): renamed copy, everything else untouched, original untouched.
+  * model(distribution): renamed copy, everything else untouched, original untouched;
+  * history: sequences of forward / gradient calls on one model object whose input (and direction) is one buffer
+    updated in place between the calls (ndarray, CUQIarray view on it, fresh copies, function-value buffer): every
+    result must belong to the current values (memoisation keyed on identity or stale values), inputs never modified.
 """
 import os
 import copy as _copy
@@ -34,11 +37,13 @@ REQUIRED_COUNTERS = {
     "quick": {"forward_value_checked": 8000, "forward_wrap_checked": 9000, "callable_input_checked": 6500,
               "samples_columns_checked": 2500, "gradient_value_checked": 2200, "fd_jacobian_columns": 2000,
               "gradient_vs_fd_of_real_forward": 2200, "geometry_gradient_input_checked": 1300,
-              "gradient_refusal_observed": 6500, "dist_rename_checked": 20, "dist_forward_checked": 80},
+              "gradient_refusal_observed": 6500, "dist_rename_checked": 20, "dist_forward_checked": 80,
+              "forward_history_checked": 9000, "gradient_history_checked": 5500, "input_unchanged_checked": 15000},
     "thorough": {"forward_value_checked": 150000, "forward_wrap_checked": 160000, "callable_input_checked": 120000,
                  "samples_columns_checked": 45000, "gradient_value_checked": 50000, "fd_jacobian_columns": 50000,
                  "gradient_vs_fd_of_real_forward": 50000, "geometry_gradient_input_checked": 30000,
-                 "gradient_refusal_observed": 150000, "dist_rename_checked": 250, "dist_forward_checked": 1000},
+                 "gradient_refusal_observed": 150000, "dist_rename_checked": 250, "dist_forward_checked": 1000,
+                 "forward_history_checked": 110000, "gradient_history_checked": 70000, "input_unchanged_checked": 190000},
 }
 BUDGET_S = {"quick": 200.0, "thorough": 1500.0}
 
@@ -682,6 +687,7 @@ def run_case(case, ctx):
         ctx.nontrivial("fwd:%s>%s" % (_label(case["dom"]), _label(case["ran"])))
     # ------------------------------------------------------------------ gradient
     _gradient_monitor(case, ctx, b, rs, rtol)
+    _history_monitor(case, ctx, b, rs, rtol)
 
 
 def _wrap_problem(val, wrap, geom, par_dim, CUQIarray):
@@ -830,6 +836,118 @@ def _gradient_monitor(case, ctx, b, rs, rtol):
                 ctx.violation("gradient_samples_not_refused", _cfg(case, which=which), detail="gradient accepted a Samples %s and returned %s" % (which, core.short(val, 100)))
             else:
                 ctx.refused("gradient:samples", val)
+
+
+def _history_monitor(case, ctx, b, rs, rtol):
+    """Several forward / gradient calls on ONE model object in which the input is one buffer that the caller updates in
+    place between the calls (x -= step*g loops), seen as the ndarray itself, as a CUQIarray view on the same buffer, as
+    a fresh array with the same values and as a function-value buffer: every result must belong to the *current*
+    values (anything remembered by identity or from stale values shows here), and no call may modify its inputs."""
+    import cuqi
+    CUQIarray, Samples = cuqi.array.CUQIarray, cuqi.samples.Samples
+    model, ref = b.model, b.ref
+    dom_g, ran_g = b.dom_obj, b.ran_obj
+    if not ref.ran.has_fun2par:
+        return
+    lo, hi = (0.5, 2.0) if ref.dom.positive_pars else (-1.0, 1.0)
+    npar = ref.dom.par_dim
+    x = rs.uniform(lo, hi, size=npar)                       # the caller's parameter buffer
+    xq = CUQIarray(x, is_par=True, geometry=dom_g)           # a CUQIarray view on the same buffer
+    shared = bool(np.shares_memory(np.asarray(xq), x))
+    fbuf = np.array(ref.dom.par2fun(x), dtype=float)        # the caller's function-value buffer
+    grad_nd_ok = _expected_grad_refusal(b, "nd_par") is None
+    grad_fun_ok = _expected_grad_refusal(b, "nd_fun") is None
+    d = rs.uniform(-1, 1, size=ref.ran.par_dim)
+    steps = 5 if ctx.tier == "thorough" else 4
+
+    def jtd(pt, dd):
+        J = ref.jac(pt)
+        if J is None:
+            J, _ = R.fd_jacobian(ref.forward, pt)
+        return J.T @ dd
+
+    def unchanged(name, arrs_before, arrs_after, cfg):
+        ctx.count("input_unchanged_checked")
+        for a0, a1 in zip(arrs_before, arrs_after):
+            if a0.shape != np.asarray(a1).shape or not np.array_equal(a0, np.asarray(a1), equal_nan=True):
+                ctx.violation("input_mutated", cfg, detail="%s modified its input: before %s after %s" % (name, a0.tolist(), np.asarray(a1).tolist()))
+                return
+
+    def mutate(new_direction):
+        x[:] = rs.uniform(lo, hi, size=npar)                 # in-place update of the caller's buffers (xq sees it too)
+        fbuf[...] = ref.dom.par2fun(x)
+        if new_direction:
+            d[:] = rs.uniform(-1, 1, size=ref.ran.par_dim)
+
+    def check_forward(cname, get, flag, k, phase):
+        cfg = _cfg(case, carrier=cname, phase=phase, step=min(k, 1))
+        arg = get()
+        before = np.array(np.asarray(arg), dtype=float, copy=True)
+        kind_, val = core.outcome(lambda: model.forward(arg, is_par=flag))
+        if kind_ != "value":
+            if kind_ == "crashed":
+                ctx.violation("crash", {**cfg, "exc": type(val).__name__}, detail=repr(val))
+            return                                           # refusals of single calls are judged by the forward monitor
+        y_ref = ref.forward(x)
+        ctx.count("forward_history_checked")
+        if not ctx.close(_flat(val), y_ref, rtol=rtol, atol=1e-11 * _TS):
+            ctx.violation("forward_history_mismatch", cfg, detail="call %d of a sequence on one model, input buffer updated in place: forward=%s, reference at the current values=%s"
+                          % (k, _flat(val).tolist(), y_ref.tolist()))
+        unchanged("forward", [before], [arg], cfg)
+
+    def check_gradient(cname, get, flag, k, phase, factor):
+        cfg = _cfg(case, carrier=cname, phase=phase, step=min(k, 1))
+        arg = get()
+        dd = d if factor == 1.0 else factor * d            # factor 1: the caller's direction buffer itself
+        before = [np.array(np.asarray(arg), dtype=float, copy=True), dd.copy()]
+        kind_, val = core.outcome(lambda: model.gradient(dd, arg, is_wrt_par=flag))
+        if kind_ != "value":
+            ctx.violation("crash" if kind_ == "crashed" else "gradient_unexpectedly_refused",
+                          {**cfg, "exc": type(val).__name__, "drep": "nd_par", "wrep": cname}, detail=repr(val))
+            return
+        g_exp = factor * jtd(x.copy(), d)
+        sc = max(1.0, float(np.max(np.abs(g_exp))))
+        tol = (rtol * 10 * sc + 1e-11 * _TS) if ref.jac(x) is not None else 1e-6 * _TS * sc
+        ctx.count("gradient_history_checked")
+        got = _flat(val)
+        if got.shape != g_exp.shape or not np.all(np.isfinite(got)) or not np.all(np.abs(got - g_exp) <= tol):
+            ctx.violation("gradient_history_mismatch", cfg,
+                          detail="call sequence on one model, linearisation point updated in place; step %d: gradient=%s, J(x)^T d at the current x=%s (x=%s)"
+                          % (k, got.tolist(), g_exp.tolist(), x.tolist()))
+        elif k > 0:
+            ctx.nontrivial("history:" + cname)
+        unchanged("gradient", before, [arg, dd], cfg)
+
+    carriers = [("same_ndarray", lambda: x, True), ("cuqiarray_view" if shared else "cuqiarray_copy", lambda: xq, True),
+                ("fresh_copy", lambda: x.copy(), True), ("funvals_buffer", lambda: fbuf, False)]
+    for cname, get, flag in carriers:
+        grad_ok = grad_nd_ok if flag else grad_fun_ok
+        # consecutive forward calls on the same object, updated in place in between
+        for k in range(steps):
+            if k > 0:
+                mutate(False)
+            check_forward(cname, get, flag, k, "forward_loop")
+        if not grad_ok:
+            continue
+        # consecutive gradient calls: same point object; the direction changes only every second step, and the order of the
+        # two directions alternates so that a call is followed by one with the same objects and the same direction but new values
+        for k in range(steps):
+            if k > 0:
+                mutate(k % 2 == 0)
+            for factor in ((1.0, -0.5) if k % 2 == 0 else (-0.5, 1.0)):
+                check_gradient(cname, get, flag, k, "gradient_loop", factor)
+        # interleaved (an optimisation loop: evaluate, differentiate, step)
+        for k in range(2):
+            mutate(False)
+            check_forward(cname, get, flag, k + 1, "mixed_loop")
+            check_gradient(cname, get, flag, k + 1, "mixed_loop", 1.0)
+    # forward on a sample collection leaves the collection untouched
+    P = rs.uniform(lo, hi, size=(npar, 2))
+    S = Samples(P, geometry=dom_g)
+    before = P.copy()
+    kind_, val = core.outcome(lambda: model.forward(S))
+    if kind_ == "value":
+        unchanged("forward(Samples)", [before], [S.samples], _cfg(case, carrier="samples", step=0))
 
 
 def _dist_monitor(case, ctx, b, rs):
